@@ -94,8 +94,13 @@ def fresh_repo_copy(work, repo):
     return dst
 
 
+def _target(kind):
+    base = os.environ.get("RSAV_TARGET_DIR")
+    return (base + "-" + kind) if base else os.path.join(extract.CACHE, "target-" + kind)
+
+
 def gc_target(limit_gb=3.0):
-    td = os.path.join(extract.CACHE, "target-corpus")
+    td = _target("corpus")
     try:
         out = subprocess.run(["du", "-sk", td], stdout=subprocess.PIPE, text=True).stdout.split()
         if out and int(out[0]) > limit_gb * 1024 * 1024:
@@ -122,7 +127,7 @@ def cargo_check(work, out_dir, crates):
     env["CARGO_INCREMENTAL"] = "0"
     env["RUSTFLAGS"] = "-Zmir-opt-level=0 -Awarnings"
     env["RUSTC_WORKSPACE_WRAPPER"] = extract.DRIVER
-    env["CARGO_TARGET_DIR"] = os.path.join(extract.CACHE, "target-corpus")
+    env["CARGO_TARGET_DIR"] = _target("corpus")
     nonce = "%d_%d" % (os.getpid(), int(time.time() * 1000))
     return subprocess.run(["cargo", "+nightly", "rustc", "--offline", "-q", "--lib", "--profile", "check", "--", "--cfg", "rsav_nonce=\"%s\"" % nonce],
                           cwd=work, env=env, stdout=subprocess.PIPE, stderr=subprocess.STDOUT, text=True)
@@ -168,7 +173,7 @@ def extract_tests_and_examples(repo):
     os.symlink(extract.DRIVER, link)
     env = extract._env()
     env.update({"RSAV_OUT": out, "RSAV_CRATES": "*", "CARGO_INCREMENTAL": "0", "RUSTFLAGS": "-Zmir-opt-level=0 -Awarnings",
-                "RUSTC_WORKSPACE_WRAPPER": link, "CARGO_TARGET_DIR": os.path.join(extract.CACHE, "target-inrepo")})
+                "RUSTC_WORKSPACE_WRAPPER": link, "CARGO_TARGET_DIR": _target("inrepo")})
     r = subprocess.run(["cargo", "+nightly", "check", "--offline", "-q", "--tests", "--examples", "--all-features"], cwd=repo, env=env,
                        stdout=subprocess.PIPE, stderr=subprocess.STDOUT, text=True)
     files = sorted(glob.glob(os.path.join(out, "*.json")))
